@@ -141,6 +141,9 @@ pub fn check_case_with(c: &CbCase, obs: &mut Obs, ws_excluded: bool) -> Result<(
         if has_domain || non_default || anchored {
             obs.nontrivial = true;
         }
+        let r0 = &rules[0];
+        let cs = r0.trigger.url_filter_is_case_sensitive.unwrap_or(false);
+        let re = regex::RegexBuilder::new(&r0.trigger.url_filter).case_insensitive(!cs).build().map_err(|e| format!("url-filter {:?} does not compile: {}", r0.trigger.url_filter, e))?;
         for u in &c.urls {
             for ty in ["script", "image", "document", "xhr", "font"] {
                 for src in ["https://site.example/", u.as_str()] {
@@ -158,9 +161,6 @@ pub fn check_case_with(c: &CbCase, obs: &mut Obs, ws_excluded: bool) -> Result<(
                     }
                     obs.inner_evals += 1;
                     obs.label("inclusion-checked");
-                    let r0 = &rules[0];
-                    let cs = r0.trigger.url_filter_is_case_sensitive.unwrap_or(false);
-                    let re = regex::RegexBuilder::new(&r0.trigger.url_filter).case_insensitive(!cs).build().map_err(|e| format!("url-filter {:?} does not compile: {}", r0.trigger.url_filter, e))?;
                     if !re.is_match(&q.url) {
                         return Err(format!("rule {:?} matches {:?} but its url-filter {:?} does not", line, q.url, r0.trigger.url_filter));
                     }
@@ -189,7 +189,7 @@ fn decode(t: &mut Tape) -> CbCase {
             5..=6 => gen::cosmetic_rule(t, &hosts),
             7 => {
                 // non-ASCII / odd domains in options
-                let d = t.choose(&["bücher.de", "пример.рф", "~bücher.de", "a.com|~b.com", "ex ample.com", "xn--", "ü", "a.com|ü.de", "~a.com|~ü.de", "A.COM", "-a-.com", "a..b", "😀.com", "\u{200b}.com"]);
+                let d = t.choose(&["bücher.de", "пример.рф", "~bücher.de", "a.com|~b.com", "ex ample.com", "xn--", "ü", "a.com|ü.de", "~a.com|~ü.de", "A.COM", "-a-.com", "a..b", "😀.com", "\u{200b}.com", "a\u{fffd}.com", "\u{fffd}", "a.com|\u{fffd}b.com", "xn--a\u{fffd}", "é\u{0301}\u{0301}.com", "aaaaaaaaaaaaaaaaaaaaaaaaaaaaaaaaaaaaaaaaaaaaaaaaaaaaaaaaaaaaaaaaaaaaaaaaü.com", "a\u{202e}b.com", "\u{0}.com", "ß.de", "ǆ.com"]);
                 let key = t.choose(&["domain", "from"]);
                 format!("{}${}={}{}", t.choose(&["||ads.example.com^", "/banner/", "|https://x.com/a", "ad$x"]), key, d, t.choose(&["", ",script", ",third-party", ",~image", ",match-case"]))
             }
